@@ -6,13 +6,14 @@ import mimetypes
 import os
 import time
 import zipfile
-from typing import Any, Dict, Optional
+from typing import Any, Dict, List, Optional
 
 import jinja2
 
 import odxtools
 
 from .database import Database
+from .odxlink import OdxDocFragment, OdxLinkRef
 from .odxtypes import bool_to_odxstr
 
 odxdatabase: Optional[Database] = None
@@ -45,6 +46,27 @@ def make_xml_attrib(attrib_name: str, attrib_val: Optional[Any]) -> str:
         return ""
 
     return f' {attrib_name}="{html.escape(str(attrib_val), quote=True)}"'
+
+
+#: The document fragments which a reference without DOCREF gets at the
+#: place of the document that is currently written (i.e., the
+#: fragment of the document or those of the document and the layer)
+_implicit_doc_frags: List[OdxDocFragment] = []
+
+
+def set_implicit_doc_frags(doc_frags: List[OdxDocFragment]) -> str:
+    global _implicit_doc_frags
+
+    _implicit_doc_frags = list(doc_frags)
+
+    return ""
+
+
+def has_explicit_docref(ref: OdxLinkRef) -> bool:
+    """Returns whether an ODXLINK reference names its target document
+    (i.e., whether it is written with the DOCREF and DOCTYPE attributes)
+    """
+    return len(ref.ref_docs) > 0 and list(ref.ref_docs) != _implicit_doc_frags
 
 
 def make_bool_xml_attrib(attrib_name: str, attrib_val: Optional[bool]) -> str:
@@ -146,6 +168,8 @@ def write_pdx_file(
         jinja_env.globals["odxraise"] = jinja2_odxraise_helper
         jinja_env.globals["make_xml_attrib"] = make_xml_attrib
         jinja_env.globals["make_bool_xml_attrib"] = make_bool_xml_attrib
+        jinja_env.globals["has_explicit_docref"] = has_explicit_docref
+        jinja_env.globals["set_implicit_doc_frags"] = set_implicit_doc_frags
         jinja_env.globals["get_parent_container_name"] = get_parent_container_name
 
         vars: Dict[str, Any] = {}
@@ -160,6 +184,7 @@ def write_pdx_file(
             zf_mime_type = "application/x-asam.odx.odx-cs"
 
             vars["comparam_subset"] = comparam_subset
+            set_implicit_doc_frags(comparam_subset.odx_id.doc_fragments)
 
             file_index.append((zf_file_name, zf_file_cdate, zf_mime_type))
 
@@ -175,6 +200,7 @@ def write_pdx_file(
             zf_mime_type = "application/x-asam.odx.odx-c"
 
             vars["comparam_spec"] = comparam_spec
+            set_implicit_doc_frags(comparam_spec.odx_id.doc_fragments)
 
             file_index.append((zf_file_name, zf_file_cdate, zf_mime_type))
 
@@ -186,6 +212,7 @@ def write_pdx_file(
         dlc_tpl = jinja_env.get_template("diag_layer_container.odx-d.xml.jinja2")
         for dlc in database.diag_layer_containers:
             vars["dlc"] = dlc
+            set_implicit_doc_frags(dlc.odx_id.doc_fragments)
 
             file_name = f"{dlc.short_name}.odx-d"
             file_cdate = datetime.datetime.now()
